@@ -5,6 +5,7 @@ for ID in "$@"; do
   [ -d "$W" ] || git -C /repo worktree add -q --detach "$W" HEAD
   for S in /verif/seeded/$ID-*; do
     N=${S##*-}
+    [ "$N" -ge "${SEEDS_MIN_N:-0}" ] || continue
     cd "$W" || exit 2
     git checkout -q -- .
     PYTHONPATH=$W /venv/bin/python "$S/demo.py" >/dev/null 2>&1; CLEAN=$?
